@@ -14,5 +14,5 @@ OBLIGATIONS = [
     dict(name='L1.prefix', harness='C14/h_prefix.cpp', entry='harness_prefix',
          tus=['lib/BuildSystem/BuildSystem.cpp', 'lib/Basic/PlatformUtility.cpp'],
          noinline=['pathIsPrefixedByPath'], expect_functions=['pathIsPrefixedByPath'],
-         models=['string'], unwind=8, params_quick=grid(4, 3), params_thorough=grid(6, 5), timeout=600),
+         models=['string'], unwind=8, params_quick=grid(4, 4), params_thorough=grid(6, 5), timeout=600),
 ]
